@@ -71,6 +71,13 @@ claim('C21', 'Channels 1-3 x every 11-bit frequency and channel 4 x every NR43 w
 claim('C23', 'Rapid direct SB/SC write/read sequences (with writer and, metamorphically, without) and rapid programs storing to SB/SC through every store form run in lock-step with the reference CPU: the writer transcript must equal the reference\'s stores to FF01 after every instruction; plus blargg ROMs with per-instruction store prediction.',
       'Transfer timing and the serial interrupt are not part of the property.')
 
+claim('C24', 'Every non-empty ROM of the repository\'s test corpus and rapid-generated register-hammering programs, x video/audio output on/off x drawn button schedules x drawn frame counts, are executed twice in one process and once in a freshly started child process through the real gameboy.New and runFrame (fake display/audio back ends); per-frame digests of the complete observable state, every audio sample, the serial bytes and the final state must be identical.',
+      'Undefined opcodes (os.Exit by design) are avoided by a pre-flight on the peeking reference stepping; OAM is digested only outside mode 2 (a mode-2 read through the decoder arms the OAM bug).')
+claim('C25', '2-3 instances over different generated programs / corpus ROMs are created in a drawn order and stepped in drawn interleavings: cycle-granular on the public-constructor machine (every instance compared with its solo run after each slice, idle instances checked for not moving) and frame-granular / concurrent through real gameboy.New + runFrame in a child process (per-frame digests, samples, serial compared with solo runs); thorough adds the concurrent mode under the race detector.',
+      'Concurrent schedules are whatever the Go runtime interleaves; the deterministic interleaved modes carry the property. A child process that exits (a derailed instance reaching an undefined opcode) is reported as a violation.')
+claim('C26', 'Generated programs poking DIV/TIMA/TAC/DMA/LCDC/IF/IE/APU/MBC registers run for 1-5 frames through the real runFrame and on a reference stepping of the same components in the documented order (complete state compared every frame, samples and serial at the end); per-frame progress of CPU (counting loop), timer (divider), memory (clock ticks, DMA), PPU (phase, VBlank) and audio (sample count) is measured directly for every cartridge type x output configuration x TAC; Run is stopped by window close, cancel from the poll hook, cancel from the serial writer and asynchronous cancel at drawn frames and must return within one further frame with stream, PortAudio, GLFW and speaker channels released.',
+      'Stop requests are issued synchronously from inside the emulation thread so the frame they land in is exact; the display and audio back ends are pure-Go fakes compiled against the unmodified display.go and speakers.go.')
+
 def main():
     hooks_commits = subprocess.run(['git', '-C', '/repo', 'log', '--format=%H', '--grep=^verif hooks'], stdout=subprocess.PIPE, text=True).stdout.split()
     checks, na = [], []
